@@ -272,7 +272,7 @@ def check_rollup(chk, ix, tier="quick", mutate=None):
             hook_failed = s.obj(me).fields.get("hook_failed")
             facts = {c: bool(g.get("has_" + c)) for c in ("passed", "failure", "error", "skipped", "untested")}
             n = g.get("n", 0)
-            exhausted = bool(g.get("exhausted"))
+            exhausted = bool(g.get("exhausted")) or g.get("#n:children") == 0
             fp = g.get("first_problem")
             wit = "hook_failed=%s children=%s first_problem=%s exhausted=%s" % (
                 hook_failed, "+".join(c for c, b in facts.items() if b) or "none", fp, exhausted)
